@@ -53,3 +53,16 @@ Lemma failed_append_unchanged : forall s E o Ea a s' o' e,
 Proof.
   intros s E o Ea a s' o' e R Ra H. pose proof (append_spec s E o Ea a R Ra) as S. rewrite H in S. exact S.
 Qed.
+
+Lemma failed_simple_ops_unchanged : forall s E o, repr s E o ->
+  (forall n e s' o', remove_field s o n = ((s', o'), Raised e) -> s' = s /\ o' = o)
+  /\ (forall n b e s' o', append_field (s ++ [b]) o n (length s) = ((s', o'), Raised e) -> s' = s ++ [b] /\ o' = o)
+  /\ (forall n b e s' o', setitem (s ++ [b]) o n (length s) = ((s', o'), Raised e) -> s' = s ++ [b] /\ o' = o)
+  /\ (forall n dt e s' o', set_field_dtype s o n dt = ((s', o'), Raised e) -> s' = s /\ o' = o).
+Proof.
+  intros s E o R; splits.
+  - intros n e s' o' H. pose proof (remove_field_spec s E o n R) as S. rewrite H in S. exact S.
+  - intros n b e s' o' H. pose proof (append_field_spec s E o n b R) as S. rewrite H in S. exact S.
+  - intros n b e s' o' H. pose proof (setitem_spec s E o n b R) as S. rewrite H in S. exact S.
+  - intros n dt e s' o' H. pose proof (set_field_dtype_spec s E o n dt R) as S. rewrite H in S. exact S.
+Qed.
